@@ -75,16 +75,54 @@ def h_compute_path(c1: int, c2: int, c3: int, c4: int, c5: int, n: int):
     for c in counts:
         assume(2 <= c <= 40)  # the scanner emits runs of >= 2 apostrophes
     _deterministic_state_order(sa)
+    depth = _track_depth(sa)
+    depth["cur"] = depth["max"] = 0
     try:
         res = sa.compute_path(counts)
     except Exception as e:
         return {"sig": "compute_path|" + type(e).__name__, "counts": counts, "kernel": "compute_path"}
+    # the analysis is iterative over the runs: its call depth must not grow with the length of a run (a run of n
+    # apostrophes would otherwise hit the interpreter's recursion limit for n around 1000)
+    if depth["max"] > DEPTH_LIMIT:
+        return {"sig": "compute_path|call-depth-grows-with-run-length", "counts": counts, "kernel": "compute_path", "depth": depth["max"], "amplify": True}
     if len(res) != len(counts):
         return {"sig": "compute_path|wrong-length", "counts": counts, "kernel": "compute_path"}
     return None
 
 
 _seq = [0]
+DEPTH_LIMIT = 12  # calls of the module's own functions nested inside one compute_path (3 on the unchanged code)
+_depth = {"cur": 0, "max": 0}
+
+
+def _track_depth(sa):
+    """wrap every function / State method the module defines (from its current source) with a nesting counter"""
+    import types
+
+    if getattr(sa, "_verif_depth", False):
+        return _depth
+
+    def wrap(fn):
+        def inner(*a, **k):
+            _depth["cur"] += 1
+            if _depth["cur"] > _depth["max"]:
+                _depth["max"] = _depth["cur"]
+            try:
+                return fn(*a, **k)
+            finally:
+                _depth["cur"] -= 1
+        inner.__wrapped__ = fn
+        return inner
+
+    for name, v in list(vars(sa.State).items()):
+        if isinstance(v, types.FunctionType) and not name.startswith("__"):
+            setattr(sa.State, name, wrap(v))
+    for name, v in list(vars(sa).items()):
+        if isinstance(v, types.FunctionType) and v.__module__ == sa.__name__ and name != "compute_path":
+            setattr(sa, name, wrap(v))
+    sa._verif_depth = True
+    return _depth
+
 
 
 def _deterministic_state_order(sa):
@@ -409,6 +447,9 @@ def replay(cand: dict) -> dict:
         raw = "<nowiki>" + d["text"] + "</nowiki> " + d["text"]
     elif k == "compute_path":
         raw = " x ".join("'" * c for c in d["counts"]) + " y"
+        if d.get("amplify"):
+            # the kernel's call depth grows with the run length (bounded to 40 in the symbolic run): same shape, longer runs
+            raws = [" x ".join("'" * (c * f) for c in d["counts"]) + " y" for f in (50, 200, 1000)]
     elif k == "_analyze_html_tag":
         raw = "x " + d["tag"] + " y " + d["tag"].replace("<", "</", 1) if not d["tag"].startswith("</") else "x " + d["tag"] + " y"
     elif k in ("handle_img_width", "handle_img_upright"):
@@ -452,4 +493,4 @@ def replay(cand: dict) -> dict:
     if not failures:
         return {"reproduced": False, "not_liftable": True, "what": f"kernel {k} fails on {d} but parse_string({raw!r}) returns normally"}
     kind = failures[0][1].split(":")[0].split(" (")[0]
-    return {"reproduced": True, "signature": f"C01|{k}|{kind}", "what": f"parse_string('T', {raw!r}, lang={failures[0][0]!r}) -> {failures[0][1]}"}
+    return {"reproduced": True, "signature": f"C01|{k}|{kind}", "what": f"parse_string('T', {(raw if len(raw) <= 200 else raw[:80] + '...(%d characters)' % len(raw))!r}, lang={failures[0][0]!r}) -> {failures[0][1]}"}
